@@ -83,42 +83,55 @@ def do_import(agent_dir, pid):
         json.dump(meta, open(os.path.join(dst, "meta.json"), "w"), indent=1)
 
 
-def do_run(ids):
+def do_run(ids, in_repo=False):
+    """Default: each change is applied in its own scratch worktree of /repo's HEAD and the checks are pointed at it with
+    VERIF_REPO (so that /repo stays usable meanwhile).  With --in-repo the patch is applied to /repo itself
+    (git -C /repo apply), the checks run, and it is undone straight afterwards (git -C /repo reset --hard)."""
     os.makedirs(SEEDED, exist_ok=True)
     rpath = os.path.join(SEEDED, "RESULTS.json")
     results = json.load(open(rpath)) if os.path.exists(rpath) else {}
-    rc, out = sh("git -C /repo status --porcelain")
-    if out.strip():
-        print("/repo is not clean; refusing", out)
-        return 2
+    if in_repo:
+        rc, out = sh("git -C /repo status --porcelain")
+        if out.strip():
+            print("/repo is not clean; refusing", out)
+            return 2
     for sid in ids or sorted(d for d in os.listdir(SEEDED) if os.path.isdir(os.path.join(SEEDED, d))):
         d = os.path.join(SEEDED, sid)
         meta = json.load(open(os.path.join(d, "meta.json")))
         pid = meta["property"]
-        rc, out = sh("git -C /repo apply --3way %s || git -C /repo apply %s" % (os.path.join(d, "patch.diff"), os.path.join(d, "patch.diff")))
+        patch = os.path.join(d, "patch.diff")
+        if in_repo:
+            tree = "/repo"
+        else:
+            tree = "/tmp/wts-%s" % sid
+            sh("git -C /repo worktree remove --force %s" % tree)
+            sh("git -C /repo worktree add --detach %s HEAD" % tree)
+        rc, out = sh("git -C %s apply --3way %s || git -C %s apply %s" % (tree, patch, tree, patch))
         if rc != 0:
             print(sid, "patch does not apply", out[-300:])
-            sh("git -C /repo checkout -- . ; git -C /repo reset -q")
             results[sid] = dict(property=pid, outcome="patch-does-not-apply")
-            continue
-        t0 = time.time()
-        try:
-            pids = [pid] + [p for p in meta.get("also_run", [])]
-            outcome = {}
-            for p in pids:
-                rc, out = sh("python3 tools/check.py %s --tier quick" % p, cwd=VERIF, timeout=3600)
-                vio = re.findall(r"^VIOLATION .*", out, re.M)
-                outcome[p] = dict(exit=rc, violations=len(vio), first=(vio[0] if vio else ""),
-                                  tail=out[-300:] if rc not in (0, 1) else "")
-        finally:
-            sh("git -C /repo checkout -- . ; git -C /repo reset -q")
-        detected = any(o["exit"] == 1 for o in outcome.values())
-        results[sid] = dict(property=pid, detected=detected, checks=outcome, wall_s=round(time.time() - t0))
-        print(sid, "DETECTED" if detected else "MISSED", json.dumps(outcome)[:300], flush=True)
+        else:
+            t0 = time.time()
+            try:
+                outcome = {}
+                for p in [pid] + list(meta.get("also_run", [])):
+                    env = "VERIF_REPO=%s VERIF_REPLAYS=/tmp/seeded-replays " % tree
+                    rc, out = sh(env + "python3 tools/check.py %s --tier quick" % p, cwd=VERIF, timeout=3600)
+                    vio = re.findall(r"^VIOLATION .*", out, re.M)
+                    outcome[p] = dict(exit=rc, violations=len(vio), first=(vio[0] if vio else ""),
+                                      tail=out[-300:] if rc not in (0, 1) else "")
+            finally:
+                if in_repo:
+                    sh("git -C /repo reset -q --hard HEAD")
+            detected = any(o["exit"] == 1 for o in outcome.values())
+            results[sid] = dict(property=pid, detected=detected, checks=outcome, wall_s=round(time.time() - t0),
+                                applied_to=tree)
+            print(sid, "DETECTED" if detected else "MISSED", json.dumps(outcome)[:300], flush=True)
+        if not in_repo:
+            sh("git -C /repo worktree remove --force %s" % tree)
+            shutil.rmtree(tree, ignore_errors=True)
         json.dump(results, open(rpath, "w"), indent=1, sort_keys=True)
-    # remove replays produced while /repo was modified
-    for f in os.listdir(os.path.join(VERIF, "replays")):
-        os.remove(os.path.join(VERIF, "replays", f))
+    shutil.rmtree("/tmp/seeded-replays", ignore_errors=True)
     return 0
 
 
@@ -126,4 +139,6 @@ if __name__ == "__main__":
     if sys.argv[1] == "import":
         do_import(sys.argv[2], sys.argv[3])
     elif sys.argv[1] == "run":
-        sys.exit(do_run(sys.argv[2:]))
+        args = sys.argv[2:]
+        inrepo = "--in-repo" in args
+        sys.exit(do_run([a for a in args if a != "--in-repo"], inrepo))
